@@ -153,11 +153,15 @@ package regclient
 //@   infunc \)\.imageCopyOpt\$5$
 //@   requires copies-this-layer: d == caller.layerSrc && refSrc == caller.refSrc && refTgt == caller.refTgt && opt == caller.opt
 //@ callsite (*RegClient).imageCopyBlob(ctx, refSrc, refTgt, d, opt, bOpt)
-//@   prop C03
+//@   prop C03, C04
 //@   name imageCopyBlob/entry-task
 //@   in ~
 //@   infunc \)\.imageCopyOpt\$3$
 //@   requires copies-this-entry: d == caller.dEntry && refSrc == caller.entrySrc && refTgt == caller.entryTgt && opt == caller.opt
+//   C04 "no manifest becomes visible at the target before everything it references": an entry whose
+//   media type says it is a manifest is copied as an image (children first, failure reported), never
+//   stored through the blob API - neither directly nor as a fall-back after its image copy failed
+//@   requires a-manifest-entry-is-never-copied-as-a-blob: d.MediaType != mediatype.Docker1Manifest && d.MediaType != mediatype.Docker1ManifestSigned && d.MediaType != mediatype.Docker2Manifest && d.MediaType != mediatype.Docker2ManifestList && d.MediaType != mediatype.OCI1Manifest && d.MediaType != mediatype.OCI1ManifestList
 //@ callsite (*RegClient).imageCopyOpt(ctx, refSrc, refTgt, d, child, parents, opt)
 //@   prop C03
 //@   name imageCopyOpt/entry-task
